@@ -828,8 +828,14 @@ class DelStartHooks(SendHooks):
         return True
 
     def materialize(self, E, path):
+        import re
         if path == 'G:jo':
             return fs(('&', 'JO[0]'))
+        m = re.match(r'^G:d\[(\d)\]$', path)
+        if m:
+            return fs(('&', 'G:d[%s][0]' % m.group(1)))        # the channel's slot table, when it is taken as a pointer
+        if re.match(r'^G:comm_buf\[\d\]\.s$', path):
+            return fs(('&', 'CB[0]'))
         return TOP
 
     def materialize_split(self, E, path):
@@ -838,10 +844,9 @@ class DelStartHooks(SendHooks):
             return [fs(0), fs(1)]
         if re.match(r'^G:flagspawnalive\[\d\]$', path):
             return [fs(0), fs(1)]
+        if re.match(r'^G:comm_buf\[\d\]\.len$', path):
+            return [fs(0), fs(7)]                               # the request buffer to the spawner is empty / still holds a request
         return None
-
-    def prim_comm_canwrite(self, E, x, args):
-        return [Outcome(ret=fs(0)), Outcome(ret=fs(1))]
 
     def _sa(self, E, x, args):
         return [Outcome(ret=fs(0)), Outcome(ret=fs(1))]
@@ -918,7 +923,7 @@ def analyse_del_start(db, rep):
     fid = eng.frame_id(fn)
     st = {'%s::%s' % (fid, fn.params[0]): fs(1), '%s::%s' % (fid, fn.params[1]): fs(4242), '%s::%s' % (fid, fn.params[2]): fs(('&', 'RCP[0]')),
           'JO[1].channel': fs(0), 'JO[1].refs': fs(3), 'JO[1].id': fs(77), 'G:concurrency[0]': fs(2), 'G:concurrencyused[0]': fs(2),
-          'G:d[0][0].used': fs(1), 'G:d[0][1].used': fs(1), 'G:d[0][0].mpos': fs(1), 'G:d[0][1].mpos': fs(2), 'G:flagspawnalive[0]': fs(1)}
+          'G:d[0][0].used': fs(1), 'G:d[0][1].used': fs(1), 'G:d[0][0].mpos': fs(1), 'G:d[0][1].mpos': fs(2), 'G:flagspawnalive[0]': fs(1), 'G:comm_buf[0].len': fs(0)}
     eng.run(fn, st)
     full_ok = bool(H.ends) and all(s_.get('$announce') is None and s_.get('G:d[0][0].mpos') == 1 and s_.get('G:d[0][1].mpos') == 2 and s_.get('G:concurrencyused[0]') == 2 for s_, _ in H.ends)
     out['ds:full-table-starts-nothing'] = (full_ok, 'qmail-send.c:del_start', 'with every slot below concurrency in use del_start must change nothing', H.ends[0][1] if H.ends and not full_ok else [])
@@ -954,10 +959,9 @@ def analyse_del_start(db, rep):
         H2 = DelStartHooks()
         res = []
         H2.on_return = lambda E, f, v, res=res: res.append(v) if f.name == 'del_avail' else None
-        H2.prim_comm_canwrite = lambda E, x, args: [Outcome(ret=fs(1))]
         eng = Engine(db, prog, H2)
         fid = eng.frame_id(da)
-        eng.run(da, {'%s::%s' % (fid, da.params[0]): fs(0), 'G:flagspawnalive[0]': fs(1), 'G:concurrency[0]': fs(2), 'G:concurrencyused[0]': fs(used)})
+        eng.run(da, {'%s::%s' % (fid, da.params[0]): fs(0), 'G:flagspawnalive[0]': fs(1), 'G:concurrency[0]': fs(2), 'G:concurrencyused[0]': fs(used), 'G:comm_buf[0].len': fs(0)})
         vals = sorted({(1 if g1v(v) else 0) if g1v(v) is not None else '?' for v in res})
         rows.append((used, vals))
     okav = all(vals == [1 if used < 2 else 0] for used, vals in rows)
@@ -1965,50 +1969,93 @@ class TimeoutHooks(MainHooks):
         return 'noreturn'
 
 
-def clamp_sites(db):
-    """C04: concurrency[c] is clamped to the byte announced by the spawner"""
+class ClampHooks(SendHooks):
+    """qmail-send main() from its entry to the initialisation of the job and delivery tables: the configured concurrency
+    limits (cfg) meet the bytes announced by the two spawners (announced, as the signed chars read() stores)"""
+    def __init__(self, cfg, announced):
+        super().__init__()
+        self.cfg = cfg
+        self.announced = announced
+        self.seen = {}
+
+    def tracked_global(self, path):
+        return True
+
+    def precise_arith(self, path):
+        return True
+
+    def prim_getcontrols(self, E, x, args):
+        return [Outcome(ret=fs(1), sets={'G:concurrency[0]': fs(self.cfg[0]), 'G:concurrency[1]': fs(self.cfg[1])})]
+
+    def prim_read(self, E, x, args):
+        k = g1(E, '$reads', 0)
+        buf = g1v(args[1])
+        if k >= 2 or not (isinstance(buf, tuple) and buf[0] == '&'):
+            return 'noreturn'
+        return [Outcome(ret=fs(1), sets={buf[1]: fs(self.announced[k]), '$reads': fs(k + 1)}, log='spawner %d announces the byte 0x%02x' % (k, self.announced[k] & 255)),
+                Outcome(ret=fs(0), sets={'$silent': fs(1), '$reads': fs(k + 1)}, log='spawner %d closes the pipe without announcing anything' % k)]
+
+    def _init(self, E, x, args):
+        self.seen.setdefault(x.callee, []).append((g1(E, 'G:concurrency[0]'), g1(E, 'G:concurrency[1]'), g1(E, 'G:numjobs'), g1(E, '$reads', 0), g1(E, '$silent', 0), x.where, E.trace.list()))
+        return [Outcome(ret=TOP)]
+
+    prim_job_init = prim_del_init = _init
+
+    def _stop(self, E, x, args):
+        return 'noreturn'
+
+    prim_pass_init = prim_todo_init = prim_cleanup_init = prim_select = prim_pqfinish = _stop
+
+    def _n(self, E, x, args):
+        return [Outcome(ret=TOP)]
+
+    prim_fnmake_init = prim_comm_init = prim_pqstart = prim_log1 = prim_log2 = prim_log3 = prim_sig_pipeignore = prim_sig_termcatch = prim_sig_alarmcatch = prim_sig_hupcatch = prim_sig_childdefault = prim_umask = _n
+
+    def _ok0(self, E, x, args):
+        return [Outcome(ret=fs(0))]
+
+    prim_chdir = prim_lock_exnb = _ok0
+
+    def prim_open_write(self, E, x, args):
+        return [Outcome(ret=fs(9))]
+
+
+def clamp_sites(db, rep=None):
+    """C04: the number of delivery slots per channel is min(configured, announced by the spawner as an unsigned byte), fixed before
+    the job and delivery tables are sized, and numjobs is their sum (main explored concretely from its entry)"""
     prog = db.program('qmail-send')
     main = prog.fn('main', 'qmail-send.c')
-    eng = Engine(db, prog, SendHooks())
-    from qv.esp import Env
-    E = Env(eng, main, {}, {}, None)
+    bad = {}
+    n = 0
+    for cfg, ann in (((3, 200), (5, 5)), ((200, 3), (5, 5)), ((200, 200), (-128, 127)), ((200, 255), (-1, -56)), ((10, 10), (0, 9))):
+        H = ClampHooks(cfg, ann)
+        e = Engine(db, prog, H, max_states=200000)
+        e.run(main, {})
+        if rep is not None:
+            rep.count_states(e.states, e.transitions)
+        want = tuple(min(cfg[k], ann[k] & 255) for k in (0, 1))
+        for nm in ('job_init', 'del_init'):
+            for c0, c1, nj, reads, silent, where, tr in H.seen.get(nm, []):
+                n += 1
+                txt = 'configured limits %s, announced bytes %s' % (list(cfg), ['0x%02x' % (b & 255) for b in ann])
+                if silent:
+                    bad.setdefault('clamp:concurrency=min(configured,announced)', (where, '%s: %s() runs although a spawner never announced its limit' % (txt, nm), tr))
+                    continue
+                if reads < 2:
+                    bad.setdefault('clamp:before-%s' % nm, (where, '%s: %s() runs after %d of the 2 announcements were read' % (txt, nm, reads), tr))
+                    continue
+                if (c0, c1) != want:
+                    small = all(0 <= b < 128 for b in ann)
+                    key = 'clamp:concurrency=min(configured,announced)' if small else 'clamp:announced-limit-read-as-an-unsigned-byte'
+                    bad.setdefault(key, (where, '%s: %s() sees the limits (%s, %s); documented %s' % (txt, nm, c0, c1, list(want)), tr))
+                if nm == 'job_init' and nj != sum(want) and (c0, c1) == want:
+                    bad.setdefault('clamp:before-job_init', (where, '%s: job_init() sizes the job table with numjobs=%s; documented %d, the sum of the limits' % (txt, nj, sum(want)), tr))
+        for nm in ('job_init', 'del_init'):
+            if not H.seen.get(nm) and not bad:
+                raise AnalysisBroken('main: %s() not reached from the entry of main (limits %s)' % (nm, cfg))
     out = {}
-    # the value compared with concurrency[c] must be the byte as 0..255
-    clamp = None
-    for x in main.all_x():
-        if x.k == 'asg' and x.op == '=' and (x.args[0].path() or '').startswith('G:concurrency['):
-            clamp = x
-    if clamp is None:
-        raise AnalysisBroken('main: clamp assignment to concurrency[c] not found')
-    uvar = clamp.args[1].var
-    g = main.guards(clamp) or []
-    okg = any(c.strip().k == 'bin' and c.strip().op == '>' and (c.strip().args[0].path() or '').startswith('G:concurrency[') and c.strip().args[1].var == uvar and t is True for c, t in g) or \
-        any(c.strip().k == 'bin' and c.strip().op == '<' and (c.strip().args[1].path() or '').startswith('G:concurrency[') and c.strip().args[0].var == uvar and t is True for c, t in g)
-    out['clamp:concurrency=min(configured,announced)'] = (okg, clamp.where, 'concurrency[c] = u must be guarded by concurrency[c] > u', [])
-    defs = [x for x in main.all_x() if x.k == 'asg' and x.op == '=' and x.args[0].var == uvar]
-    okv = bool(defs)
-    detail = ''
-    for d in defs:
-        chp = None
-        for y in d.args[1].walk():
-            if y.k == 'cast' and y.op == 'LValueToRValue':
-                chp = eng.canon(E, y.args[0])
-        if chp is None:
-            okv = False
-            continue
-        for b in range(-128, 128):
-            v = eng.concrete(E, d.args[1], {chp: b})
-            # what the comparison sees: u converted to unsigned int
-            if v is None or (v & 0xFFFFFFFF) != (b & 0xFF):
-                okv = False
-                detail = 'announced byte %d (0x%02x) becomes %s' % (b & 0xFF, b & 0xFF, v if v is None else v & 0xFFFFFFFF)
-                break
-    out['clamp:announced-limit-read-as-an-unsigned-byte'] = (okv, defs[0].where if defs else 'qmail-send.c:main', detail or 'u is the byte 0..255', [])
-    # clamp dominates job_init / del_init / numjobs use
-    for nm in ('job_init', 'del_init'):
-        cs = main.calls(nm)
-        ok = bool(cs) and not main.can_reach(main.pos[cs[0].id][0], main.pos[clamp.id][0])
-        out['clamp:before-%s' % nm] = (ok, cs[0].where if cs else 'qmail-send.c:main', '%s() must run after the clamp' % nm, [])
+    for k in ('clamp:concurrency=min(configured,announced)', 'clamp:announced-limit-read-as-an-unsigned-byte', 'clamp:before-job_init', 'clamp:before-del_init'):
+        out[k] = (k not in bad, bad[k][0] if k in bad else 'qmail-send.c:main', bad[k][1] if k in bad else '%d table initialisations explored' % n, bad[k][2] if k in bad else [])
     return out
 
 
